@@ -194,13 +194,13 @@ Section Container.
 
   (** -------------------------------------------------------------------------------- well-formedness *)
   Definition lump_ok (i : nat) (l : lump) : bool :=
-    (l_ver l <? 2 ^ 31) && forallb (fun b => b <? 256) (l_data l)
+    (l_ver l <? 2 ^ 31) && forallb (fun b => b <? 256) (l_data l) && (len (l_data l) <? 2 ^ 31)
     && (if Nat.eqb i (gidx L) then (l_ver l =? 0) && negb (l_comp l) && match l_data l with [] => true | _ => false end
         else if Nat.eqb i (pak L) then negb (l_comp l)
         else negb (l_comp l) || match l_data l with [] => false | _ => true end).
   Definition glump_ok (g : glump) : bool :=
     Nat.eqb (length (g_id g)) 4 && forallb (fun b => b <? 256) (g_id g) && negb (bytes_eqb (g_id g) [0; 0; 0; 0])
-    && (g_flags g <? 2 ^ 16) && (g_ver g <? 2 ^ 16) && forallb (fun b => b <? 256) (g_data g).
+    && (g_flags g <? 2 ^ 16) && (g_ver g <? 2 ^ 16) && forallb (fun b => b <? 256) (g_data g) && (len (g_data g) <? 2 ^ 31).
   Fixpoint ids_nodup (gs : list glump) : bool :=
     match gs with
     | [] => true
@@ -208,6 +208,12 @@ Section Container.
     end.
   Fixpoint forallbi {A} (p : nat -> A -> bool) (i : nat) (l : list A) : bool :=
     match l with [] => true | x :: r => p i x && forallbi p (S i) r end.
+  (** Conditions on the layout constants (an instance obligation for the generated layout). *)
+  Definition layout_ok : bool :=
+    Nat.ltb 0 (nlumps L) && Nat.ltb (gidx L) (nlumps L) && Nat.ltb (pak L) (nlumps L) && negb (Nat.eqb (gidx L) (pak L))
+    && forallb (fun i => existsb (Nat.eqb i) (worder L)) (seq 0 (nlumps L))
+    && negb (l4d2_version L =? vitamin_version L).
+
   Definition wf (c : container) : bool :=
     Nat.eqb (length (c_lumps c)) (nlumps L) && forallbi lump_ok 0 (c_lumps c)
     && forallb glump_ok (c_games c) && ids_nodup (c_games c)
